@@ -43,6 +43,9 @@ pub enum P {
     Panic,
     SelfKill,
     SelfStop,
+    /// the callback panics in its synchronous prelude (default build; with async-trait there is no prelude and it
+    /// is an ordinary panic at the first poll)
+    PreludePanic,
 }
 #[derive(Clone, Debug, PartialEq, Eq)]
 pub enum Closer {
@@ -115,6 +118,7 @@ pub fn steps(p: P) -> Vec<Step> {
         P::SleepsMs => vec![Step::Tick, Step::SleepMs(5), Step::Tick],
         P::Err => vec![Step::Tick, Step::Yield, Step::Err("boom-err")],
         P::Panic => vec![Step::Tick, Step::Yield, Step::Panic("boom-panic")],
+        P::PreludePanic => vec![Step::Panic("boom-panic-prelude")],
         P::SelfKill => vec![Step::KillSelf, Step::Tick, Step::Yield, Step::Tick],
         P::SelfStop => vec![Step::StopSelf, Step::Tick, Step::Yield, Step::Tick],
     }
@@ -140,6 +144,8 @@ pub struct Run {
     pub bystander_ok: bool,
     pub final_status: Option<ActorStatus>,
     pub cut_happened: bool,
+    /// the spawn call unwound into the spawner's task
+    pub spawn_panicked: bool,
 }
 
 impl Run {
@@ -155,9 +161,9 @@ impl Run {
     }
 }
 
-type Handles = (ActorRef<PMsg>, Option<JoinHandle<()>>, Option<JoinHandle<Result<JoinHandle<()>, SpawnErr>>>);
+pub type Handles = (ActorRef<PMsg>, Option<JoinHandle<()>>, Option<JoinHandle<Result<JoinHandle<()>, SpawnErr>>>);
 
-async fn spawn_probe(
+pub async fn spawn_probe(
     kind: Kind,
     variant: Variant,
     name: Option<String>,
@@ -209,6 +215,7 @@ pub async fn run_scenario(sc: Sc) -> Run {
         bystander_ok: false,
         final_status: None,
         cut_happened: false,
+        spawn_panicked: false,
     };
     // supervisor S, bystander B, stranger X
     let sup_prog = Prog {
@@ -230,7 +237,17 @@ pub async fn run_scenario(sc: Sc) -> Run {
     }
     let handle_steps = if sc.site == Site::Handle { st.clone() } else { vec![Step::Tick, Step::Yield, Step::Tick] };
     let sup_cell = if sc.has_sup() { Some(s_ref.get_cell()) } else { None };
-    let spawned = spawn_probe(sc.kind, sc.variant, Some("A".into()), args("A", prog, &log), sup_cell, &spawner).await;
+    // (a panic of the code under test that unwinds into the spawner's own task is caught here and judged)
+    let spawned = match futures::FutureExt::catch_unwind(std::panic::AssertUnwindSafe(spawn_probe(sc.kind, sc.variant, Some("A".into()), args("A", prog, &log), sup_cell, &spawner))).await {
+        Ok(r) => r,
+        Err(p) => {
+            if vsched::is_engine_panic(&*p) {
+                std::panic::resume_unwind(p);
+            }
+            run.spawn_panicked = true;
+            Err(SpawnErr::StartupFailed("(the spawn call itself panicked)".into()))
+        }
+    };
     let (a_ref, a_h, a_outer) = match spawned {
         Ok(x) => x,
         Err(e) => {
